@@ -67,6 +67,56 @@ fn check_seq(acc: &mut Acc, idx: usize, pts: &[IP], full: bool) {
         results.push(("LineString::convex_hull<f64>", guard(|| ring_of_f(LineString::new(cf.clone()).convex_hull().exterior()))));
         results.push(("Polygon::convex_hull<f64>", guard(|| ring_of_f(Polygon::new(LineString::new(cf.clone()), vec![]).convex_hull().exterior()))));
         results.push(("MultiPoint::convex_hull<i64>", guard(|| ring_of_i(MultiPoint(ci.iter().map(|&c| Point(c)).collect()).convex_hull().exterior()))));
+        // every other geometry type holding the same coordinates ("convex_hull of any geometry"), and the f32 / i32 instantiations
+        {
+            use geo::{Geometry, GeometryCollection, Line, MultiLineString, MultiPolygon, Rect, Triangle};
+            let n = cf.len();
+            let mls = MultiLineString(vec![LineString::new(cf[..n / 2].to_vec()), LineString::new(cf[n / 2..].to_vec())]);
+            results.push(("MultiLineString::convex_hull<f64>", guard(|| ring_of_f(mls.convex_hull().exterior()))));
+            let mpg = MultiPolygon(vec![Polygon::new(LineString::new(cf[..n / 2].to_vec()), vec![]), Polygon::new(LineString::new(cf[n / 2..].to_vec()), vec![LineString::new(cf[..1].to_vec())])]);
+            results.push(("MultiPolygon::convex_hull<f64>", guard(|| ring_of_f(mpg.convex_hull().exterior()))));
+            let mut members: Vec<Geometry<f64>> = vec![];
+            let mut i = 0;
+            while i < n {
+                if i + 3 <= n && i % 2 == 0 {
+                    members.push(Geometry::Triangle(Triangle(cf[i], cf[i + 1], cf[i + 2])));
+                    i += 3;
+                } else if i + 2 <= n {
+                    members.push(Geometry::Line(Line::new(cf[i], cf[i + 1])));
+                    i += 2;
+                } else {
+                    members.push(Geometry::Point(Point(cf[i])));
+                    i += 1;
+                }
+            }
+            let gc = GeometryCollection(vec![Geometry::GeometryCollection(GeometryCollection(members.clone())), Geometry::MultiPoint(MultiPoint(vec![Point(cf[0])]))]);
+            results.push(("GeometryCollection::convex_hull<f64>", guard(|| ring_of_f(gc.convex_hull().exterior()))));
+            results.push(("Geometry::convex_hull<f64>", guard(|| ring_of_f(Geometry::GeometryCollection(GeometryCollection(members.clone())).convex_hull().exterior()))));
+            if n == 3 {
+                results.push(("Triangle::convex_hull<f64>", guard(|| ring_of_f(Triangle(cf[0], cf[1], cf[2]).convex_hull().exterior()))));
+            }
+            let c32: Vec<Coord<f32>> = pts.iter().map(|&p| Coord { x: p.0 as f32, y: p.1 as f32 }).collect();
+            if pts.iter().all(|p| p.0.abs() < (1 << 20) && p.1.abs() < (1 << 20)) {
+                results.push(("quick_hull<f32>", guard(|| quick_hull(&mut c32.clone()).0.iter().map(|c| (c.x as i64, c.y as i64)).collect())));
+                results.push(("graham_hull<f32>", guard(|| graham_hull(&mut c32.clone(), false).0.iter().map(|c| (c.x as i64, c.y as i64)).collect())));
+                let c_i32: Vec<Coord<i32>> = pts.iter().map(|&p| Coord { x: p.0 as i32, y: p.1 as i32 }).collect();
+                results.push(("quick_hull<i32>", guard(|| quick_hull(&mut c_i32.clone()).0.iter().map(|c| (c.x as i64, c.y as i64)).collect())));
+            }
+            // a Rect's hull is the Rect
+            if n >= 2 && cf[0].x != cf[1].x && cf[0].y != cf[1].y {
+                let r = Rect::new(cf[0], cf[1]);
+                let want = hull(&[(r.min().x as i64, r.min().y as i64), (r.max().x as i64, r.min().y as i64), (r.max().x as i64, r.max().y as i64), (r.min().x as i64, r.max().y as i64)]);
+                acc.evals += 1;
+                match guard(|| ring_of_f(r.convex_hull().exterior())) {
+                    Ok(ring) => {
+                        if let Some(msg) = check_ring("Rect::convex_hull<f64>", &ring, true, &want, &want) {
+                            acc.viol(msg, idx, || json!({"rect": format!("{:?}", r), "got": format!("{:?}", ring)}));
+                        }
+                    }
+                    Err(p) => acc.viol("Rect::convex_hull panic".into(), idx, || json!({"rect": format!("{:?}", r), "panic": p})),
+                }
+            }
+        }
     }
     for (name, r) in results {
         acc.evals += 1;
